@@ -60,12 +60,26 @@ pub fn run_c02(case: &Case) -> Outcome {
 
 pub fn c02(ctx: &Ctx, rep: &mut Report) {
     rep.rule = "stream workload on two real Multiplexors in simnet (options per side, link capacity, 1-4 streams from either side, writer/reader scripts incl. vectored, empty and \
-                window-exceeding bursts, generated schedule then fair run to quiescence); oracle: every byte read equals f(stream,direction,offset), reads never run ahead of completed writes, \
+                window-exceeding bursts, generated schedule then fair run to quiescence), plus a family in which one end is driven by the CopyBidirectional bridge against a scripted local socket; oracle: every byte read equals f(stream,direction,offset), reads never run ahead of completed writes, \
                 equality at EOF after a clean shutdown. Non-trivial = (>=2 streams established, or a writer blocked on credit, or a vectored write) and >=1 byte delivered. Distinct = distinct case value."
         .into();
     rep.assumptions = sim_assumptions();
     let sh = Shape { max_streams: 4, max_wops: 8, allow_empty: true, allow_drop: true, complete: false, small_windows: true, max_sched: 400 };
     ctx.prop(rep, "integrity", ctx.tier.pick(80_000, 3_000_000), 300, || stream_workload(sh), run_c02);
+    // the other way applications move bytes through a stream: the CopyBidirectional bridge (every TCP entry point of the
+    // client and the server's forwarder use it) between a scripted local side and a real peer application
+    ctx.prop(rep, "bridged", ctx.tier.pick(30_000, 1_000_000), 300, || with_keepalive(super::bridge::c13_case()), |case| {
+        let run = run_case(case);
+        if !run.quiescent {
+            return inconclusive(&run);
+        }
+        let a = Analysis::new(case, &run);
+        if let Err((sig, msg)) = a.integrity() {
+            return Outcome::violation(format!("bridged:{sig}"), format!("{msg} | bridge {:?} | tail: {}", case.bridges[0], a.ctx(14)));
+        }
+        let delivered: usize = a.streams.iter().map(|s| s.ends[0].total_read() + s.ends[1].total_read()).sum();
+        Outcome::pass(delivered > 0, vec!["bridged-end"])
+    });
 }
 
 pub fn run_c03(case: &Case) -> Outcome {
@@ -87,12 +101,18 @@ pub fn run_c03(case: &Case) -> Outcome {
 }
 
 pub fn c03(ctx: &Ctx, rep: &mut Report) {
-    rep.rule = "stream workload weighted to windows 1-5 and asymmetric pairs; black-box accounting on the wire per flow and direction: Push sent - credit received <= advertised window at every Push, \
+    rep.rule = "stream workload weighted to windows 1-5 and asymmetric pairs (plus a family with one end driven by the CopyBidirectional bridge); black-box accounting on the wire per flow and direction: Push sent - credit received <= advertised window at every Push, \
                 one Push per successful non-empty write, acknowledged frames <= frames the application pulled, no Reset on a flow both applications hold. Non-trivial = a sender reached zero credit. Distinct = distinct case value."
         .into();
     rep.assumptions = sim_assumptions();
     let sh = Shape { max_streams: 3, max_wops: 10, allow_empty: true, allow_drop: false, complete: false, small_windows: true, max_sched: 400 };
     ctx.prop(rep, "credit", ctx.tier.pick(80_000, 3_000_000), 300, || stream_workload(sh), run_c03);
+    // the bridge takes credit through its own path (poll_write_us): same accounting on the wire
+    ctx.prop(rep, "credit-bridged", ctx.tier.pick(30_000, 1_000_000), 300, || with_keepalive(super::bridge::c13_case()), |case| {
+        let mut o = run_c03(case);
+        o.classes.push("bridged-end");
+        o
+    });
 }
 
 // ---------------------------------------------------------------- C04
@@ -348,7 +368,7 @@ pub fn c05(ctx: &Ctx, rep: &mut Report) {
                     2 => What::Inject { from: 1, msg: RawMsg::Close },
                     _ => What::Inject { from: 0, msg: RawMsg::Close },
                 };
-                c.events = vec![RawEvent { when: Trigger::FromStep(step), what }];
+                c.events.push(RawEvent { when: Trigger::FromStep(step), what });
                 c
             })
         },
